@@ -107,7 +107,21 @@ def spec_steps(triples, shards=None):
         res.append(('crash', ''))
     return res
 
-# ------------------------------------------------------------------ Element.normalize (op NZ): the DOM Level 1 oracle in python
+def spec_op(op, view):
+    """the op word of a spec driver line.  NZ carries the view of the case as a third field (`NZ:<h>:r` / `NZ:<h>:m`): the
+    extracted dom_normalize (Spec/DomL1.v, reading R7) speaks about the raw tree; in the merged-text view the expected state is
+    'unchanged' (Properties/C13.v C13_normalize_merged_view, C13_normalize_merged_view_not_raw) -- that reading is applied,
+    visibly, by the NZ arm of ocaml/specdomains/dom/dom.ml"""
+    w = D.mkop(op)
+    if op[0] == 'NZ':
+        w += ':' + ('m' if view.startswith('m') else 'r')
+    return w
+
+# ------------------------------------------------------------------ Element.normalize (op NZ): the SECOND DOM Level 1 oracle, in python
+# The expected answer of an NZ call comes from the extracted specification like that of every other call (spec_steps ->
+# ocaml/specdomains/dom/dom.ml -> extracted dom_normalize).  spec_normalize below is kept as an independent second oracle:
+# analyse evaluates both on every NZ call and records a disagreement (summary['oracle_disagree']), which checks/C13.py
+# reports as a tie break -- it would mean that the transcription dom_normalize, its driver arm or this python reading is wrong.
 # "Puts all Text nodes in the full depth of the sub-tree underneath this Element into a normal form where only markup (e.g.,
 # tags, comments, processing instructions, CDATA sections, and entity references) separates Text nodes, i.e., there are no
 # adjacent Text nodes."  Reading (R4 of Spec/DomL1.v: a string that is no character data is refused): a Text node is merged
@@ -343,14 +357,12 @@ def analyse(cases, lines, tag, summary, c15=True):
             rec = Rec2(t)
             if i > 0 and prev is not None and not prev.skipped and not rec.skipped and not prev.bad and not rec.bad:
                 op = ops[i - 1]
-                if op[0] == 'NZ':
-                    # normalize is not in the extracted Spec/DomL1.v: the expected answer comes from spec_normalize above
-                    steps.append((ci, i, prev, rec, spec_normalize(prev, op, view)))
-                elif op[0] != 'Q':
-                    key = (prev.ext_dump, D.mkop(op))
+                if op[0] != 'Q':
+                    # every call, NZ included, is decided by the extracted specification (for NZ the op word carries the view)
+                    key = (prev.ext_dump, spec_op(op, view))
                     if key not in uniq:
                         uniq[key] = len(triples)
-                        triples.append((prev.ext_dump, D.mkop(op), ew))
+                        triples.append((prev.ext_dump, key[1], ew))
                     steps.append((ci, i, prev, rec, uniq[key]))
             elif i > 0 and rec.bad:
                 summary['c13'].append({'docs': docs, 'ops': [list(o) for o in ops[:i]], 'clause': 'dump', 'detail': 'no dump after the call: ' + str(rec.bad),
@@ -361,10 +373,27 @@ def analyse(cases, lines, tag, summary, c15=True):
     for ci, i, prev, rec, k in steps:
         docs, ops, view = cases[ci]
         op = ops[i - 1]
-        sres, sstate = k if isinstance(k, tuple) else out[k]
+        sres, sstate = out[k]
         summary['ops'] += 1
         if op[0] == 'NZ':
             cnt('normalize:calls'); cnt('normalize:view-' + view[0])
+            # the second oracle (python, on the same state before the call) must give the same answer
+            pres, pstate = spec_normalize(prev, op, view)
+            if sres != 'crash':
+                cnt('normalize:decided-by-extracted-dom_normalize')
+            if (pres, pstate) == (sres, sstate):
+                cnt('normalize:oracles-agree')
+            else:
+                cnt('normalize:oracles-disagree')
+                a, b = sstate.split(' '), pstate.split(' ')
+                diff = [(x, y) for x, y in zip(a, b) if x != y][:3]
+                if len(a) != len(b): diff.append(('%d nodes' % len(a), '%d nodes' % len(b)))
+                dis = summary.setdefault('oracle_disagree', [])
+                if len(dis) < 20:
+                    dis.append({'docs': docs, 'ops': [list(o) for o in ops[:i]], 'view': view, 'op': list(op), 'tag': tag,
+                                'extracted': sres, 'python': pres, 'impl': rec.result,
+                                'detail': 'extracted dom_normalize answers %s, python spec_normalize answers %s%s'
+                                          % (sres, pres, ''.join('; extracted %s / python %s' % d for d in diff))})
             cnt('normalize:' + ('not-applicable' if sres == 'na' else 'merged-something' if sstate != canon(prev) else 'nothing-to-merge'))
         res = rec.result
         cls = res.split(':')[0] + (':' + res.split(':')[1] if res.startswith('err') else '')
@@ -605,7 +634,7 @@ def campaign(run):
     rng = random.Random(run.seed)
     thorough = run.tier == 'thorough'
     s = {'cases': 0, 'ops': 0, 'c13': [], 'c15': [], 'crashes': [], 'hist': {}, 'nontrivial': set(), 'n13': {}, 'n15': {},
-         '_seen13': set(), '_seen15': set(), 'samples': [], 'times': {}}
+         '_seen13': set(), '_seen15': set(), 'samples': [], 'times': {}, 'oracle_disagree': []}
     t0 = time.time()
     cases = [(d, o, 'r') for d, o in CORPUS]
     analyse(cases, run_ext(cases, shards=1), 'corpus', s)
@@ -768,10 +797,14 @@ def replay_file(path, prop):
     txt = line[0].split(' | ')
     ew = ent_words(line[0])
     recs = [Rec2(t) for t in txt]
-    out = spec_steps([(recs[i - 1].ext_dump, D.mkop(ops[i - 1]), ew) for i in range(1, len(recs))], shards=1)
+    out = spec_steps([(recs[i - 1].ext_dump, spec_op(ops[i - 1], view), ew) for i in range(1, len(recs))], shards=1)
     for i in range(1, len(recs)):
-        sres, sstate = spec_normalize(recs[i - 1], ops[i - 1], view) if ops[i - 1][0] == 'NZ' else out[i - 1]
+        sres, sstate = out[i - 1]
         print('%2d %-44s implementation: %-26s DOM Level 1: %s' % (i, D.show_op(ops[i - 1]), recs[i].result, sres))
+        if ops[i - 1][0] == 'NZ':
+            second = spec_normalize(recs[i - 1], ops[i - 1], view)
+            print('      second oracle (python spec_normalize): %s, %s the extracted dom_normalize'
+                  % (second[0], 'agrees with' if second == (sres, sstate) else 'DISAGREES with'))
         for v in (compare_step(recs[i - 1], recs[i], sres, sstate), atomicity(recs[i - 1], recs[i])):
             if v: print('      C13 %s: %s' % v)
         if recs[i].result.startswith('ok'):
